@@ -122,6 +122,8 @@ static void check_sends(const mvar_t *v);
 static void backlog_scenario(int idx);
 static void pvtmix_scenario(int idx);
 static void attach_scenario(int idx);
+static void fullq_scenario(int idx);
+static void latesend_scenario(int idx);
 #include "c05_variants.h"
 
 /* ---- the pool virtual thread carries a message AND a user event at the same time, while the worker(s) are
@@ -414,4 +416,97 @@ check_sends(const mvar_t *v) {
 int
 main(int argc, char **argv) {
 	return (sc_main(argc, argv));
+}
+
+
+/* ---- a really full queue (the pipes hold one page = 128 packets): a pool thread floods its own queue from a
+ * callback.  The kernel, not an injected errno, says when the queue is full; a send that then waits instead of
+ * failing can never be served (the only reader is the sender). ---- */
+#define FLOOD_N 140
+static int fq_rc[FLOOD_N], fq_runs[FLOOD_N], fq_direct[FLOOD_N], fq_order[FLOOD_N], fq_nrun, fq_in_flood;
+static uint32_t fq_flags;
+static void
+fq_item_cb(tpt_p tpt, void *udata) {
+	int k = (int)(intptr_t)udata;
+	(void)tpt;
+	fq_runs[k] ++;
+	if (fq_in_flood) fq_direct[k] ++;
+	if (fq_nrun < FLOOD_N) fq_order[fq_nrun ++] = k;
+}
+static void
+fq_flood_cb(tpt_p tpt, void *udata) {
+	int k;
+	(void)udata;
+	fq_in_flood = 1;
+	for (k = 0; k < FLOOD_N; k ++)
+		fq_rc[k] = tpt_msg_send(tpt, tpt, fq_flags, fq_item_cb, (void *)(intptr_t)k);
+	fq_in_flood = 0;
+}
+static void
+fullq_scenario(int idx) {
+	const mvar_t *v = &variants[idx];
+	int k, rc, last = -1, accepted = 0;
+
+	cur = v;
+	fq_flags = v->sends[0].flags;
+	sc_small_pipes = 1;
+	tpc_up(v->W, 0);
+	rc = tpt_msg_send(tp_thread_get(tpc_tp, 0), NULL, 0, fq_flood_cb, NULL);
+	if (0 != rc) sc_fail("harness", "flood seed send rc=%d", rc);
+	sc_wait_quiescent();
+	for (k = 0; k < FLOOD_N; k ++) {
+		if (0 == fq_rc[k]) {	/* success: exactly one run; synchronously in the sender only under a direct-call option */
+			accepted ++;
+			if (0 == fq_runs[k]) sc_fail("message-lost", "self-send #%d into a filling queue reported success, never ran", k);
+			if (fq_runs[k] > 1) sc_fail("message-duplicated", "self-send #%d ran %d times", k, fq_runs[k]);
+			if (fq_direct[k] && 0 == (fq_flags & (TP_MSG_F_SELF_DIRECT | TP_MSG_F_FAIL_DIRECT)))
+				sc_fail("unexpected-direct-call", "self-send #%d (flags %#x) ran inside the sender without a direct-call option", k, fq_flags);
+		} else if (0 != fq_runs[k])
+			sc_fail("failed-send-ran-callback", "self-send #%d returned %d but its callback ran %d time(s)", k, fq_rc[k], fq_runs[k]);
+	}
+	for (k = 0; k < fq_nrun; k ++) {	/* queued messages of one sender to one thread run in send order */
+		if (fq_direct[fq_order[k]]) continue;
+		if (fq_order[k] < last) sc_fail("order-violated", "self-send #%d ran after #%d", fq_order[k], last);
+		last = fq_order[k];
+	}
+	if (accepted < 100 || accepted >= FLOOD_N)
+		sc_log("note: %d of %d self-sends were accepted", accepted, FLOOD_N);
+	sc_log("fullq: accepted=%d ran=%d", accepted, fq_nrun);
+}
+
+/* ---- messages accepted while the destination is busy, then the pool is shut down, then the destination gets back to
+ * its queue: they were accepted by a running thread before the shutdown and stand in front of the shutdown message ---- */
+static int ls_runs[4], ls_order[8], ls_n;
+static void
+ls_item_cb(tpt_p tpt, void *udata) {
+	int k = (int)(intptr_t)udata;
+	(void)tpt;
+	ls_runs[k] ++;
+	if (ls_n < 8) ls_order[ls_n ++] = k;
+}
+static void
+latesend_scenario(int idx) {
+	const mvar_t *v = &variants[idx];
+	int k, rc, lrc[3];
+	tpt_p dst;
+
+	cur = v;
+	tpc_up(v->W, 0);
+	dst = tp_thread_get(tpc_tp, (size_t)(v->W - 1));
+	gate1 = 0;
+	rc = tpt_msg_send(dst, NULL, 0, gate_cb, NULL);
+	if (0 != rc) sc_fail("harness", "gate send rc=%d", rc);
+	sc_wait_quiescent();			/* the destination is parked inside the gate callback */
+	for (k = 0; k < 3; k ++)
+		lrc[k] = tpt_msg_send(dst, NULL, 0, ls_item_cb, (void *)(intptr_t)k);
+	tp_shutdown(tpc_tp);			/* queues the shutdown message behind them */
+	gate1 = 1;
+	sc_wait_quiescent();
+	for (k = 0; k < 3; k ++) {
+		if (0 == lrc[k] && 0 == ls_runs[k]) sc_fail("message-lost", "message #%d was accepted by a running thread before tp_shutdown(), never ran", k);
+		if (0 == lrc[k] && ls_runs[k] > 1) sc_fail("message-duplicated", "message #%d ran %d times", k, ls_runs[k]);
+		if (0 != lrc[k] && 0 != ls_runs[k]) sc_fail("failed-send-ran-callback", "message #%d: send returned %d, callback ran", k, lrc[k]);
+	}
+	for (k = 1; k < ls_n; k ++)
+		if (ls_order[k] < ls_order[k - 1]) sc_fail("order-violated", "message #%d ran after #%d", ls_order[k], ls_order[k - 1]);
 }
